@@ -30,15 +30,21 @@ where
             println!("\n{{\"processEvent\": {}}}", event.to_json_debug());
         }
         sorted_events.push(event.clone());
+        #[cfg(feature = "verif-hooks")]
+        super::verif_hooks::tick(event.point.x.into(), event.point.y.into());
 
         if operation == Operation::Intersection && event.point.x > rightbound
             || operation == Operation::Difference && event.point.x > sbbox.max.x
         {
+            #[cfg(feature = "verif-hooks")]
+            super::verif_hooks::record_break(sweep_line.len());
             break;
         }
 
         if event.is_left() {
             sweep_line.insert(event.clone());
+            #[cfg(feature = "verif-hooks")]
+            super::verif_hooks::record_len(sweep_line.len());
 
             let maybe_prev = sweep_line.prev(&event);
             let maybe_next = sweep_line.next(&event);
